@@ -32,13 +32,30 @@ def build(chk):
     return True
 
 
-def _run_test(chk, name, timeout):
+def _run_test(chk, name, timeout, bound=None):
     cmd = ["cargo", "test", "--offline", "-q", "--release", "--test", "c20", "--", "--include-ignored", "--exact", name, "--nocapture", "--test-threads=1"]
+    env = _env(chk)
+    if bound is not None:
+        env["C20_PREEMPTION_BOUND"] = str(bound)
     try:
-        p = subprocess.run(cmd, cwd=_dir(chk), env=_env(chk), stdout=subprocess.PIPE, stderr=subprocess.STDOUT, text=True, timeout=timeout)
+        p = subprocess.run(cmd, cwd=_dir(chk), env=env, stdout=subprocess.PIPE, stderr=subprocess.STDOUT, text=True, timeout=timeout)
         return p.returncode, p.stdout
     except subprocess.TimeoutExpired as e:
         return None, (e.stdout or b"").decode("utf-8", "replace") if isinstance(e.stdout, bytes) else (e.stdout or "")
+
+
+def _run_budgeted(chk, name, budget):
+    """Unbounded DPOR first; if the interleaving space of this configuration does not fit into the budget (an
+    implementation with more synchronisation steps per call), iterate the preemption bound downwards: 3, then 2.
+    Returns (rc, output, completed_bound) with completed_bound None = unbounded."""
+    rc, out = _run_test(chk, name, budget)
+    if rc is not None:
+        return rc, out, None
+    for bound in (3, 2):
+        rc, out = _run_test(chk, name, budget, bound)
+        if rc is not None:
+            return rc, out, bound
+    return None, out, 2
 
 
 def _parse(out):
@@ -58,17 +75,21 @@ def run(prop, cfg, tier, seed, chk):
     # loom explores one test single-threaded; the tests are independent processes and run in parallel.
     import concurrent.futures
     with concurrent.futures.ThreadPoolExecutor(max_workers=8) as ex:
-        outcomes = list(ex.map(lambda t: _run_test(chk, t, 3 * 3600), tests))
-    for t, (rc, out) in zip(tests, outcomes):
+        budget = 3 * 3600 if tier == "thorough" else 300
+        outcomes = list(ex.map(lambda t: _run_budgeted(chk, t, budget), tests))
+    bounded = {}
+    for t, (rc, out, bound) in zip(tests, outcomes):
         parsed = _parse(out)
-        configs.extend(dict(test=t, **p) for p in parsed)
+        configs.extend(dict(test=t, preemption_bound=bound, **p) for p in parsed)
+        if bound is not None:
+            bounded[t] = bound
         if rc is None:
-            errors.append("loom test %s hit the wall cap" % t)
+            errors.append("loom test %s hit the wall cap even with preemption bound 2" % t)
         elif rc != 0:
             m = re.search(r"C20-VIOLATION[^\n]*", out)
             if m:
                 # Determinism: the same exploration must fail the same way again.
-                rc2, out2 = _run_test(chk, t, 3600)
+                rc2, out2 = _run_test(chk, t, 3600, bound)
                 m2 = re.search(r"C20-VIOLATION[^\n]*", out2)
                 kind = "duplicate" if "duplicate" in m.group(0) else "name-part"
                 if rc2 != 0 and m2 and (("duplicate" in m2.group(0)) == (kind == "duplicate")):
@@ -109,12 +130,13 @@ def run(prop, cfg, tier, seed, chk):
         transitions=sum(c["executions"] * c["threads"] * c["calls"] for c in configs),
         traces_validated_against_impl=executions,
         samples=[dict(test=c["test"], threads=c["threads"], calls=c["calls"], name_part=c["name_part"], executions=c["executions"], distinct_outcomes=c["distinct_outcomes"]) for c in configs[:12]],
-        explanation="states = complete executions (interleavings) explored by loom, no preemption bound; every execution runs the real temp_file_name and checks pairwise-distinct paths that contain the caller's name part; "
+        explanation="states = complete executions (interleavings) explored by loom, no preemption bound unless preemption_bounded_configurations names one (used only when the unbounded space of a configuration did not fit into the budget: every execution with at most that many preemptions was explored); every execution runs the real temp_file_name and checks pairwise-distinct paths that contain the caller's name part; "
                     "transitions = atomic counter operations executed; distinct_outcomes = distinct assignments of counter values to calls observed (equals the multinomial (T*K)!/(K!^T) when every outcome was reached)",
         evaluations=executions + sum(pb["evals"] for pb in per_build.values()),
         distinct_nontrivial=sum(c["distinct_outcomes"] for c in configs),
         rule=cfg["rule"],
-        exhaustive=not errors,
+        exhaustive=not errors and not bounded,
+        preemption_bounded_configurations=bounded,
         loom_configurations=configs,
         free_running_corroboration=dict(label="SAMPLING - not a deciding step", per_build=per_build, counters=counters),
         repo=chk.repo_state(),
